@@ -28,7 +28,7 @@ ASSUMPTIONS = [
     "locations are str paths (autoload on a file object reads the stream twice and is outside the property)",
 ]
 
-MD_KINDS = ["none", "empty", "flat", "nested", "tensor", "tuple"]
+MD_KINDS = ["none", "empty", "flat", "nested", "tensor", "tuple", "tricky"]
 PATHS = ["/ckpt/p0.pt", "/ckpt/p1.pt", "/ckpt/p2.pt", "/ckpt/p3.pt"]
 
 
@@ -40,7 +40,7 @@ def generate(seed, tier):
     models = [a, b, c]
     md_slots = [r.choice(MD_KINDS) for _ in range(3)]
     if r.random() < 0.7:
-        md_slots[0] = r.choice(["flat", "nested", "tensor", "tuple"])
+        md_slots[0] = r.choice(["flat", "nested", "tensor", "tuple", "tricky"])
     nops = r.randint(4, 14)
     ops = []
     faulty = r.random() < 0.4  # separate stratum: fault-free histories judge the ordinary rules alone
@@ -55,6 +55,9 @@ def generate(seed, tier):
             ops.append({"op": "train", "m": mi, "sub": P.s64(r), "dseed": P.s64(r)})
         elif m < 0.27:
             ops.append({"op": "add_unitary", "m": mi, "name": r.choice(["Q", "R", "Q", "X", "Y", "Z", "N", "N"]), "th": round(r.uniform(0.1, 3.0), 3), "near": r.choice([0.0, 2e-9, 1e-7]), "edit": r.choice(["set", "set", "set", "set", "remove_xy", "clear"])})
+            if ops[-1]["name"] == "N" and ops[-1]["edit"] == "set" and mi in (0, 1):
+                # the model of the same shape gets a NEARLY identical matrix under the same name
+                ops.append({"op": "add_unitary", "m": 1 - mi, "name": "N", "th": 0.5, "near": r.choice([x for x in (0.0, 2e-9, 1e-7) if x != ops[-1]["near"]]), "edit": "set"})
         elif m < 0.62:
             op = {"op": "save", "m": mi, "path": r.choice(PATHS), "md": r.randrange(0, 3)}
             if faulty and r.random() < 0.35:
@@ -90,6 +93,9 @@ def _make_md(kind, torch):
         return {"cfg": {"sizes": [1, 2, 3], "tags": {"a": "b"}}, "history": [0.5, 0.25]}
     if kind == "tensor":
         return {"target": torch.arange(6, dtype=torch.double).reshape(2, 3) / 7.0, "ids": torch.tensor([3, 1, 2])}
+    if kind == "tricky":
+        # ordinary, non-reserved keys that merely sound like internals
+        return {"unitaries": {"X": torch.eye(2, dtype=torch.double)}, "networks": ["rbm_am"], "state_dict": {"weights": 1}, "rbm": None, "metadata": {"unitary_dict": 3}}
     if kind == "tuple":
         return {"lattice": (2, 3), "pair": (torch.ones(2, dtype=torch.double), torch.zeros(1)), "cfg": {"window": (1, 2.5, "x"), "flag": True, "none": None}}
     raise ValueError(kind)
@@ -283,6 +289,7 @@ def execute(plan):
                 md_kind = cfg["md_slots"][op["md"]]
                 pre = snap(st)
                 md_pre = copy.deepcopy(md)
+                ud_obj = st.__dict__.get("unitary_dict")
                 opens_before = len(disk.opens)
                 fault = op.get("fault")
                 disk.arm(fault)
@@ -313,6 +320,8 @@ def execute(plan):
                     continue
                 # the process is alive: save must not have touched model or metadata
                 same_model(st, pre, f"model after save (op {j}, outcome {outcome})", "11-side-effect-model", md_kind=md_kind)
+                if ud_obj is not None and st.__dict__.get("unitary_dict") is not ud_obj:
+                    run.violate("11-side-effect-model", "save replaced the model's unitary dictionary object (a reference the caller holds is detached from the model)", md_kind=md_kind, type=pre["type"])
                 if not deq(md, md_pre):
                     added = sorted(set(md.keys()) - set(md_pre.keys())) if isinstance(md, dict) and isinstance(md_pre, dict) else None
                     run.violate(
